@@ -4,6 +4,7 @@
 //
 //	resolve DIR PAT…      goembed.ResolvePatterns(DIR, pats)          -> ok NAME=DATA,… | err
 //	load FILE             parse FILE, goembed.LoadDirectives           -> ok VAR=NAME+NAME;VAR=… | ok . | err | parse-error
+//	loadd FILE            the same with the bytes                      -> ok VAR=NAME:DATA+NAME:DATA;… | …
 //	match PAT NAME        path.Match (the Go library, reference for the model's transcription) -> true|false|err
 //	badname NAME          goembed.IsBadName                            -> true|false
 //	validpat PAT          goembed.ValidPattern, path.Match(PAT,"") ok  -> t|f t|f
@@ -101,7 +102,7 @@ func handle(line string) (out string) {
 			return "err"
 		}
 		return "ok " + hexFiles(fs)
-	case f[0] == "load" && len(args) == 1:
+	case (f[0] == "load" || f[0] == "loadd") && len(args) == 1:
 		fset := token.NewFileSet()
 		file, err := parser.ParseFile(fset, args[0], nil, parser.ParseComments)
 		if err != nil {
@@ -123,7 +124,11 @@ func handle(line string) (out string) {
 		for _, k := range names {
 			var fl []string
 			for _, fd := range vm[k].Files {
-				fl = append(fl, hx(fd.Name))
+				if f[0] == "loadd" {
+					fl = append(fl, hx(fd.Name)+":"+hx(string(fd.Data)))
+				} else {
+					fl = append(fl, hx(fd.Name))
+				}
 			}
 			parts = append(parts, hx(k)+"="+strings.Join(fl, "+"))
 		}
